@@ -18,7 +18,7 @@ import world
 # "defaults"; they stay out of the stream because with "oneof_internal" seed 2 trips K5 (a `ser`
 # mismatch on a recursive Option member, and a coqc stack overflow on a 335 KB shard) - not a
 # validator matter - and "defaults" was never part of the C02 stream (C06's subject).
-SUPPORTED = set(schemagen.ALL_FEATURES) - {"defaults", "oneof_optional_const", "mixed_closedness", "multi_tag_values"}
+SUPPORTED = set(schemagen.ALL_FEATURES) - {"defaults", "oneof_optional_const", "mixed_closedness", "multi_tag_values", "boundary"}
 
 
 def covers_eval(tag, docs, dumps, timeout=600):
